@@ -361,6 +361,33 @@ let engine_pipeline (cases : string) (hxout : string) =
       | Some k -> String.sub o (k + 1) (String.length o - k - 1) | None -> "" in
     print_endline (pipeline_case c otxt))
 
+(* ---------------------------------------------------------------- queue engine *)
+let queue_case (c : string) : string =
+  let ops = Str.split (Str.regexp_string " | ") c in
+  match ops with
+  | [] -> "BADCASE"
+  | hdr :: ops ->
+    let threshold = int_of_string (List.hd (split_ws hdr)) in
+    let st = ref (qinit (nat_of_int threshold) (nat_of_int 100000) []) in
+    let next = ref 0 in
+    let results = List.map (fun op ->
+      let before = List.length (!st).q_delivered in
+      (match split_ws op with
+       | ["Q"; k] ->
+         let k = int_of_string k in
+         let evs = List.init k (fun i -> nat_of_int (!next + i)) in
+         next := !next + k;
+         st := do_queue !st evs
+       | ["T"] -> st := do_tick !st
+       | _ -> ());
+      let dl = (!st).q_delivered in
+      let fresh = List.filteri (fun i _ -> i >= before) dl in
+      let bs = List.map (fun b -> if b = [] then "e" else String.concat "," (List.map (fun e -> string_of_int (int_of_nat e)) b)) fresh in
+      Printf.sprintf "%s len=%d" (String.concat ";" bs) (List.length (!st).q_pending)) ops in
+    String.concat " | " results
+
+let engine_queue (cases : string) = iter_lines cases (fun c -> print_endline (queue_case c))
+
 (* ---------------------------------------------------------------- model-internal self test:
    fsm_get_mapping against first_match / most_specific on an exhaustive small scope
    (a TEST of the theorem statements, not a proof) *)
@@ -412,5 +439,6 @@ let () =
   | _ :: "line" :: cases :: hxout :: _ -> engine_line cases hxout
   | _ :: "mapper" :: cases :: hxout :: _ -> engine_mapper cases hxout
   | _ :: "pipeline" :: cases :: hxout :: _ -> engine_pipeline cases hxout
+  | _ :: "queue" :: cases :: _ -> engine_queue cases
   | _ :: "selftest-fsm" :: n :: _ -> selftest_fsm (int_of_string n)
   | _ -> prerr_endline "usage: runner <engine> <casefile> [hx output]"; exit 2
